@@ -2,6 +2,7 @@
 C08 helpers — from the run theorem (`linearizeWith_run`) to the facets of `WF.report`.
 -/
 import Rooc.Proofs.WFLower
+import Rooc.Proofs.WFSimp
 import Rooc.Proofs.WFDedup
 import Mathlib.Data.List.Sublists
 
@@ -208,6 +209,64 @@ theorem user_names_kept_of_ok {p : α → Bool} {m : Model α} {obj : Ctx α} {s
   rcases hname with h | ⟨hrne, _, k, hk⟩
   · exact ⟨r.name, hsrc (h ▸ hne) hN, Or.inl h⟩
   · exact ⟨r.name, hsrc hrne hN, Or.inr (hk ▸ startsWith_cand r.name k)⟩
+
+/-! ### finiteness -/
+
+/-- no non-finite literal in the source (objective and both sides of every constraint). -/
+def FiniteLits (m : Model α) : Bool :=
+  allLits Arith.isFinite m.objective &&
+    m.constraints.all fun c => allLits Arith.isFinite c.lhs && allLits Arith.isFinite c.rhs
+
+theorem mem_extractCoeffs {p : α → Bool} (h0 : p Arith.zero = true) (e : List (String × α)) (vars : List String)
+    (he : ∀ q ∈ e, p q.2 = true) : ∀ x ∈ extractCoeffs e vars, p x = true := by
+  unfold extractCoeffs
+  have key : ∀ (f : List α → String × α → List α),
+      (∀ vec q, (∀ x ∈ vec, p x = true) → p q.2 = true → ∀ x ∈ f vec q, p x = true) →
+      ∀ (e : List (String × α)) (init : List α), (∀ q ∈ e, p q.2 = true) → (∀ x ∈ init, p x = true) →
+      ∀ x ∈ e.foldl f init, p x = true := by
+    intro f hf e
+    induction e with
+    | nil => intro init _ hi; simpa using hi
+    | cons q qs ih =>
+      intro init hq hi
+      simp only [List.foldl_cons]
+      exact ih _ (fun q' hq' => hq q' (by simp [hq'])) (hf _ _ hi (hq q (by simp)))
+  refine key _ ?_ e _ he ?_
+  · intro vec q hv hq
+    obtain ⟨n, v⟩ := q
+    dsimp only
+    split
+    · intro x hx
+      rcases List.mem_or_eq_of_mem_set hx with h | h
+      · exact hv x h
+      · rw [h]; exact hq
+    · exact hv
+  · intro y hy
+    rw [List.eq_of_mem_replicate hy]; exact h0
+
+theorem finite_of_ok {p : α → Bool} (hp : Closed p) {N : String → Prop} {m : Model α} {obj : Ctx α} {s : St α}
+    (hok : StOK N p s) (hobj : CtxOK p obj) :
+    let lm := assemble m obj s
+    (lm.rows.all (fun r => r.coeffs.all p && p r.rhs) && lm.objective.all p && p lm.offset) = true := by
+  intro lm
+  simp only [Bool.and_eq_true, List.all_eq_true]
+  refine ⟨⟨?_, ?_⟩, hobj.2⟩
+  · intro r hr
+    obtain ⟨o, ho, rfl⟩ := List.mem_map.mp hr
+    obtain ⟨r0, hr0, hl, hrhs, _, _⟩ := forall₂_exists_left (dedupNames_rel s.rows) ho
+    have hrow := hok.2 r0 hr0
+    refine ⟨?_, by rw [hrhs]; exact hrow.2.2⟩
+    intro x hx
+    exact mem_extractCoeffs (hp.ofInt 0) _ _ (by rw [hl]; exact hrow.2.1) x hx
+  · intro x hx
+    exact mem_extractCoeffs (hp.ofInt 0) _ _ hobj.1 x hx
+
+theorem stOK_init_of_finiteLits {m : Model α} (b : BoundsMap α) (d : List (DomVar α)) (h : FiniteLits m = true) :
+    StOK (fun _ => True) (fun a : α => Arith.isFinite a) (initSt m b d) := by
+  simp only [FiniteLits, Bool.and_eq_true, List.all_eq_true] at h
+  refine ⟨?_, by simp [initSt]⟩
+  intro c hc
+  exact ⟨trivial, (h.2 c hc).1, (h.2 c hc).2⟩
 
 end Lin
 end Rooc
